@@ -23,8 +23,9 @@ RULE = ("(A) LinearizedOrderGoal._get_linear_coefficients for orders 2-5 and tol
         "instance optimised twice vs a fresh one; per-priority objective values to 1e-5. non-trivial = "
         "pair with >= 2 priorities; distinct = abstracted pair shapes")
 MODELLED = "linearized_order_goal_programming_mixin.py _get_linear_coefficients (result), MinAbs constraints, QP form (1-D)"
-NOT_MODELLED = ("the solvers; CasADi map modes / expand (paired runs only); vector goals vs scalar goals and MinAbs vs "
-                "explicit two-sided goals are exercised as paired runs without a model")
+NOT_MODELLED = ("the solvers; CasADi map modes / expand (paired runs only); vector goals vs scalar goals (with and without "
+                "scale_by_problem_size, different numbers of finite targets per element) and MinAbs vs explicit two-sided goals "
+                "(member-dependent functions, 1-3 members) are exercised as paired runs, their algebra is in LinOrder.v")
 ASSUMPTIONS = ["optimal values are compared, argmins only where the optimum is unique"]
 
 
@@ -243,3 +244,242 @@ def run(ctx):
                                   what="equivalent formulations disagree (%s): %s vs %s" % (name, ref, o))
                 elif len(ctx.samples) < 3:
                     ctx.sample({"pair": name, "case": c, "objective_values": ref, "other": o})
+
+
+# ---- further pairs: vector goal vs its scalar goals; |f| minimisation vs the explicit two-sided form ----------
+def _run_gp(P, record):
+    p = P()
+    ok = p.optimize()
+    return {"ok": bool(ok), "objectives": list(record["obj"]), "y": [[float(v) for v in p.extract_results(m)["y"]] for m in range(p.ensemble_size)],
+            "z": [[float(v) for v in p.extract_results(m)["z"]] for m in range(p.ensemble_size)]}
+
+
+def vector_pair(rng):
+    from rtctools.optimization.goal_programming_mixin import Goal, GoalProgrammingMixin
+    from rtctools.optimization.timeseries import Timeseries
+    from .. import problems
+    n = rng.choice([3, 4, 5])
+    E = rng.choice([1, 2])
+    times = list(range(n))
+    spec = gp.spec_for({"times": times, "E": E, "p": [0, "1/2"][:E]})
+    Base = problems.make_base(spec)
+    tarr = np.array(times, dtype=float)
+    # targets with a different number of finite entries per element
+    tmin = np.array([[float(rng.randint(3, 7)) if rng.random() < 0.8 else np.nan for _ in range(2)] for _ in range(n)])
+    tmin[0, 0], tmin[0, 1] = 5.0, 4.0
+    if n > 2:
+        tmin[1, rng.randrange(2)] = np.nan
+    cap = [float(rng.randint(0, 2)), float(rng.randint(0, 2))]           # a conflicting goal of the same priority
+    order = rng.choice([1, 2])
+    nom = [rng.choice([1.0, 2.0]), rng.choice([1.0, 4.0])]
+    scale = rng.random() < 0.6
+    weight = rng.choice([1.0, 2.0])
+    desc = {"n": n, "E": E, "target_min": tmin.tolist(), "cap": cap, "order": order, "nominal": nom, "scale_by_problem_size": scale, "weight": weight}
+
+    def caps():
+        out = []
+        for k, nm in enumerate(("y", "z")):
+            class Cap(Goal):
+                priority = 1
+                target_max = cap[k]
+                function_range = (-40.0, 40.0)
+                _nm = nm
+
+                def function(self, op, em):
+                    return op.state(self._nm)
+            c = Cap()
+            c.order = order
+            out.append(c)
+        return out
+
+    def make(vector):
+        rec = {"obj": []}
+
+        class P(GoalProgrammingMixin, Base):
+            def goal_programming_options(self):
+                o = super().goal_programming_options()
+                o["scale_by_problem_size"] = scale
+                o["keep_soft_constraints"] = True
+                return o
+
+            def solver_options(self):
+                o = super().solver_options()
+                o["ipopt"] = {"print_level": 0, "tol": 1e-10}
+                o["print_time"] = False
+                return o
+
+            def priority_completed(self, priority):
+                rec["obj"].append(float(self.objective_value))
+
+            def path_goals(self):
+                gs = caps()
+                if vector:
+                    class V(Goal):
+                        size = 2
+                        priority = 1
+                        target_min = Timeseries(tarr, tmin)
+                        function_range = (np.array([-40.0, -40.0]), np.array([40.0, 40.0]))
+                        function_nominal = np.array(nom)
+
+                        def function(self, op, em):
+                            return ca.vertcat(op.state("y"), op.state("z"))
+                    v = V()
+                    v.order, v.weight = order, weight
+                    gs.append(v)
+                else:
+                    for k, nm in enumerate(("y", "z")):
+                        class S(Goal):
+                            priority = 1
+                            target_min = Timeseries(tarr, tmin[:, k].copy())
+                            function_range = (-40.0, 40.0)
+                            function_nominal = nom[k]
+                            _nm = nm
+
+                            def function(self, op, em):
+                                return op.state(self._nm)
+                        sg = S()
+                        sg.order, sg.weight = order, weight
+                        gs.append(sg)
+
+                class Second(Goal):
+                    priority = 2
+                    order = 2
+
+                    def function(self, op, em):
+                        return op.state("y") - op.state("z")
+                gs.append(Second())
+                return gs
+        return P, rec
+    return desc, make
+
+
+def minabs_pair(rng):
+    from rtctools.optimization.goal_programming_mixin import Goal, GoalProgrammingMixin
+    from rtctools.optimization.min_abs_goal_programming_mixin import MinAbsGoal, MinAbsGoalProgrammingMixin
+    from .. import problems
+    n = rng.choice([2, 3])
+    E = rng.choice([1, 2, 2, 3])
+    times = list(range(n))
+    spec = gp.spec_for({"times": times, "E": E, "p": [0, "3/2", "-2"][:E]})
+    c0 = float(Fraction(rng.randint(-12, 12), 4))
+    k = rng.randrange(n)
+    cap = float(rng.randint(-3, 1))
+    desc = {"n": n, "E": E, "offset": c0, "time_index": k, "cap": cap}
+
+    def f_of(op, em):
+        # depends on the ensemble member through state_at
+        return op.state_at("y", float(times[k]), ensemble_member=em) - c0
+
+    def common(op):
+        class Cap(Goal):              # keeps y away from the offset for some members: |f| > 0 at the optimum
+            priority = 1
+            target_max = cap
+            function_range = (-40.0, 40.0)
+            order = 1
+
+            def function(self, op, em):
+                return op.state("u")
+        return [Cap()]
+
+    def make(minabs):
+        rec = {"obj": []}
+        Base = problems.make_base(dict(spec))
+        aabs = ca.MX.sym("aabs")
+        mixins = (MinAbsGoalProgrammingMixin, GoalProgrammingMixin) if minabs else (GoalProgrammingMixin,)
+
+        class P(*mixins, Base):
+            def solver_options(self):
+                o = super().solver_options()
+                o["ipopt"] = {"print_level": 0, "tol": 1e-10}
+                o["print_time"] = False
+                return o
+
+            def priority_completed(self, priority):
+                rec["obj"].append(float(self.objective_value))
+
+            @property
+            def extra_variables(self):
+                # (the user's class sits above the mixins, as in the examples)
+                return super().extra_variables + ([] if minabs else [aabs])
+
+            def bounds(self):
+                b = super().bounds()
+                if not minabs:
+                    b["aabs"] = (0.0, np.inf)
+                return b
+
+            def path_goals(self):
+                return common(self)
+
+            def min_abs_goals(self):
+                if not minabs:
+                    return []
+
+                class A(MinAbsGoal):
+                    priority = 2
+
+                    def function(self, op, em):
+                        return f_of(op, em)
+                return [A()]
+
+            def constraints(self, ensemble_member):
+                cons = super().constraints(ensemble_member)
+                if not minabs:
+                    a = self.extra_variable("aabs", ensemble_member)
+                    f = f_of(self, ensemble_member)
+                    cons.append((f - a, -np.inf, 0.0))
+                    cons.append((f + a, 0.0, np.inf))
+                return cons
+
+            def goals(self):
+                gs = super().goals()
+                if not minabs:
+                    class A(Goal):
+                        priority = 2
+                        order = 1
+
+                        def function(self, op, em):
+                            return op.extra_variable("aabs", em)
+                    gs.append(A())
+                return gs
+        return P, rec
+    return desc, make
+
+
+def further_pairs(ctx):
+    rng = ctx.rng
+    jobs = [("vector", vector_pair(rng)) for _ in range(ctx.n(4, 120))] + [("minabs", minabs_pair(rng)) for _ in range(ctx.n(4, 120))]
+    for kind, (desc, make) in jobs:
+        outs = []
+        for flag in (True, False):
+            P, rec = make(flag)
+            k, val = in_child(lambda: _run_gp(P, rec), timeout=120)
+            outs.append(val if k == "ok" else {"child": k, "detail": str(val)[:200]})
+        ctx.runtime_samples += 1
+        ctx.count("pair_" + kind)
+        ctx.case_done(core.fingerprint([kind, desc.get("E"), desc.get("n"), desc.get("order"), desc.get("scale_by_problem_size")]), desc.get("E", 1) > 1 or kind == "vector")
+        a, b = outs
+        rep = {"pair": kind, "case": desc, "first": a, "second": b}
+        if "child" in a or "child" in b:
+            ctx.count("pair_child_problem")
+            if kind == "minabs" or "Error" in str(a) + str(b):
+                ctx.violation("pair/%s-exception" % kind, rep, no_input=True, what="one side of the %s pair failed to run: %s" % (kind, (a.get("detail") or b.get("detail"))))
+            continue
+        if not (a["ok"] and b["ok"]):
+            ctx.count("pair_unsolved")
+            continue
+        names = {"vector": ("one vector goal", "its scalar goals"), "minabs": ("MinAbsGoal", "explicit two-sided formulation")}[kind]
+        # run_gp records through a child: objectives are in the returned dict of the child copy
+        if not close_lists(a["objectives"], b["objectives"], 1e-5):
+            ctx.violation("pair/" + kind, rep, what="%s and %s give different optimal values per priority: %s vs %s" % (names[0], names[1], a["objectives"], b["objectives"]))
+        elif len(ctx.samples) < 4:
+            ctx.sample({"pair": kind, "case": desc, "objective_values": a["objectives"]})
+
+
+_run_core = run
+
+
+def run(ctx):  # noqa: F811
+    _run_core(ctx)
+    if not os.environ.get("VERIF_REPLAY"):
+        further_pairs(ctx)
